@@ -442,20 +442,23 @@ func (c *Container) RegisteredWebServices() []*WebService {
 
 // computeAllowedMethods returns a list of HTTP methods that are valid for a Request
 func (c *Container) computeAllowedMethods(req *Request) []string {
-	// Go through all RegisteredWebServices() and all its Routes to collect the options
+	// Go through all Routes of the WebService that serves this path to collect the options
 	methods := []string{}
 	requestPath := req.Request.URL.Path
-	for _, ws := range c.RegisteredWebServices() {
-		matches := ws.pathExpr.Matcher.FindStringSubmatch(requestPath)
-		if matches != nil {
-			finalMatch := matches[len(matches)-1]
-			for _, rt := range ws.Routes() {
-				matches := rt.pathExpr.Matcher.FindStringSubmatch(finalMatch)
-				if matches != nil {
-					lastMatch := matches[len(matches)-1]
-					if lastMatch == "" || lastMatch == "/" { // do not include if value is neither empty nor ‘/’.
-						methods = append(methods, rt.Method)
-					}
+	// a request is dispatched to the Routes of one WebService only, the one the router selects ; which Route is not relevant here
+	ws, _, _ := c.router.SelectRoute(c.RegisteredWebServices(), req.Request)
+	if ws == nil {
+		return methods
+	}
+	matches := ws.pathExpr.Matcher.FindStringSubmatch(requestPath)
+	if matches != nil {
+		finalMatch := matches[len(matches)-1]
+		for _, rt := range ws.Routes() {
+			matches := rt.pathExpr.Matcher.FindStringSubmatch(finalMatch)
+			if matches != nil {
+				lastMatch := matches[len(matches)-1]
+				if lastMatch == "" || lastMatch == "/" { // do not include if value is neither empty nor ‘/’.
+					methods = append(methods, rt.Method)
 				}
 			}
 		}
